@@ -296,7 +296,7 @@ struct Env {
   const ref::Complex* model;
   std::vector<Simplex> dfs;                 // model simplices in depth-first (children first) order
   std::vector<Simplex> nonmembers;          // deterministic probes that are NOT in the model
-  std::map<Simplex, std::vector<Simplex>> cof[4];  // [0]: star (the simplex included), [k]: cofaces of codimension k
+  std::map<Simplex, std::vector<Simplex>> cof[6];  // [0]: star (the simplex included), [k]: cofaces of codimension k
   std::vector<Simplex> maximal;             // maximal simplices of the model
   int dim;
   int obsmode;                              // 0: dimension() first, 1: last, 2: not called in this step
@@ -493,8 +493,9 @@ void observe(Sut<Opt>& sut, const Env& env, Ctx& ctx) {
       VF_CHECK(k == facets.size(), "boundary-opp-size",
                nm << ": " << k << " boundary/opposite pairs for " << ref::to_string(s) << " (step " << step << ")");
     }
-    // star and cofaces of codimension 1..3 (as sets; no order is documented)
-    for (int codim = 0; codim <= 3; ++codim) {
+    // star and cofaces of codimension 1..3 (vertices: 1..5, i.e. up to one more than anything present) as sets; no
+    // order is documented
+    for (int codim = 0; codim <= (d == 0 ? 5 : 3); ++codim) {
       const bool star = codim == 0;
       if (star && !Opt::link_nodes_by_label && d >= st.upper_bound_dimension() &&
           ctx.excluded("C01-star-of-top-simplex")) {
@@ -946,18 +947,18 @@ void run_case(Tape& t, Ctx& ctx) {
     env.nonmembers = gen.nonmember_probes();
     for (auto& a : gen.m.s) {
       bool mx = true;
-      for (int c = 0; c < 4; ++c) env.cof[c][a.first];
+      for (int c = 0; c < 6; ++c) env.cof[c][a.first];
       for (auto& b : gen.m.s) {
         if (b.first.size() < a.first.size() || !ref::is_subset(a.first, b.first)) continue;
         size_t c = b.first.size() - a.first.size();
         env.cof[0][a.first].push_back(b.first);
-        if (c >= 1 && c <= 3) env.cof[c][a.first].push_back(b.first);
+        if (c >= 1 && c <= 5) env.cof[c][a.first].push_back(b.first);
         if (c > 0) mx = false;
       }
       if (mx) env.maximal.push_back(a.first);
     }
     for (auto& a : gen.m.s)  // internal consistency of the oracle: two routes to the same sets
-      for (int c = 0; c < 4; ++c)
+      for (int c = 0; c < 6; ++c)
         VF_ORACLE(env.cof[c].at(a.first) == gen.m.cofaces(a.first, c) || gen.m.size() > 24, "coface tables disagree");
     VF_ORACLE(env.maximal == gen.m.maximal_simplices() || gen.m.size() > 24, "maximal simplices disagree");
     env.dim = gen.m.dimension();
